@@ -937,6 +937,7 @@ func checkC17(w *World, r *Report) {
 	r.rule("C17.provenance", "every function that builds a Position from other positions copies each field from the like-named field of its source (Close: begin fields and module from the opener, end fields from the closer); in the tokenizer row fields come from the scanner's Line and column fields from its Column, with no arithmetic on rows")
 	r.rule("C17.module", "every Position built by the tokenizer carries the module of the cursor given to Read_str; the ';; $MODULE' header is consulted only when that cursor has no module, and its pattern captures the whole remainder of the header line as written by load-file")
 	r.rule("C17.span", "the collection returned by read_list carries open.Close(closer): open is a copy of the first token's cursor, closer the cursor of the token that matched the end; reader-macro forms carry a cursor too")
+	getPositionOwnRule(w, r, "C17.own-position")
 	r.rule("C17.reposition", "NewLispError sets the cursor of the error it returns to GetPosition(form) on every path: an error a builtin returns with coordinates of its own (read-string, eval) is re-positioned at the failing call form")
 	newLispErrorRule(w, r, "C17.reposition")
 	builtinRepositionRule(w, r, e, "C17.reposition")
@@ -1561,6 +1562,14 @@ func checkC19(w *World, r *Report) {
 	// reader joined by the line breaks they were typed with (a comment ends at its line break)
 	r.rule("C19.repl-lines", "the interactive REPL joins the lines it has accumulated with a line break before it hands them to the reader: a comment inside a form typed over several lines ends where it ends in a file")
 	replJoinRule(w, r, "C19.repl-lines")
+	// an error that comes out of a future is the error its body raised: nothing formats it (with the module, rows
+	// and columns its text carries) into a new error value that catch would bind
+	r.include("C19.future-", "C10.", "what a failed future delivers is the error its body came to, not a new error made from that error's positioned text", checkC10, func(rule string) bool {
+		return rule == "C10.outcome-own"
+	})
+	// every delivery route runs the program in the process as it is: no route changes the working directory (file
+	// names in the program would then mean other files on that route)
+	processStateRule(w, r, "C19.process-cwd")
 	// the wrappers of the delivery routes add levels of nesting ((do ...), load-file's (do ... nil)): a reader that
 	// counts levels against a limit reads a program on one route and refuses it on another
 	readerLimitRule(w, r, "C19.no-limit")
@@ -2004,6 +2013,11 @@ func checkC20(w *World, r *Report) {
 	r.rule("C20.error-result", "the error a bound function returns is the error the caller gets: NewLispError, which positions it at the call form, returns the very object it was given (a LispError as is, anything else stored whole), never something dug out of its chain (shared with C03.object)")
 	newLispErrorRule(w, r, "C20.error-result")
 	builtinErrorMappedRule(w, r, "C20.mapped")
+	// "a leading context parameter is filled with the evaluation's context": also where the evaluation goes on in
+	// a future - its body (and every context-first function called there) runs under a child of the creator's context
+	r.include("C20.future-", "C10.", "the body of a future runs under a child of the context of the evaluation that created it: context-first Go functions called there see that evaluation's deadline and cancellation", checkC10, func(rule string) bool {
+		return rule == "C10.ctx" || rule == "C10.body-context"
+	})
 	// "a panic inside it becomes a catchable error that still wraps the original": the chain is walked through
 	// LispError.Unwrap, one link at a time
 	unwrapRule(w, r, nil, e, "C20.error-result")
@@ -2694,6 +2708,52 @@ func checkC20(w *World, r *Report) {
 			r.check(up && lo, "C20.checked-first", fn, "return of an argument vector", ret.Pos(), "after both bound checks", "a path hands back an argument vector (so the function is invoked) without the count having been compared with both bounds")
 		}
 	}
+	// "invoked iff the count is in bounds (and the arguments are assignable)": the builders refuse a call on the
+	// count alone - every panic in them lies behind comparisons of integers (counts and bounds) only
+	r.rule("C20.refusal-grounds", "every panic of the argument builders (and the functions of the package they are built from) is reached only through comparisons of integers - the argument count against the bounds: a call whose count is within the bounds is never refused on another ground (the state of the context, the time, a value of an argument)")
+	nrg := 0
+	seenRG := map[*ssa.Function]bool{}
+	for _, root := range []*ssa.Function{args, argsCtx} {
+		for _, fn := range w.withPkgHelpers(root) {
+			if fn == nil || seenRG[fn] || fnPkgPath(fn) != modPath+"/lib/call" {
+				continue
+			}
+			seenRG[fn] = true
+			for _, b := range fn.Blocks {
+				for _, in := range b.Instrs {
+					pn, ok := in.(*ssa.Panic)
+					if !ok {
+						continue
+					}
+					nrg++
+					ground := ""
+					for _, a := range knownConds(b) {
+						bo, isBO := a.v.(*ssa.BinOp)
+						if isBO && isIntType(bo.X.Type()) && isIntType(bo.Y.Type()) {
+							continue
+						}
+						// a flag handed in by the caller that is itself such a comparison (unbounded = max == unlimited)
+						if p, isP := a.v.(*ssa.Parameter); isP {
+							allCmp := len(w.callSiteArgs(p)) > 0
+							for _, arg := range w.callSiteArgs(p) {
+								ab, ok := arg.(*ssa.BinOp)
+								_, isConst := arg.(*ssa.Const)
+								if !isConst && !(ok && isIntType(ab.X.Type()) && isIntType(ab.Y.Type())) {
+									allCmp = false
+								}
+							}
+							if allCmp {
+								continue
+							}
+						}
+						ground = describeVal(e, a.v, 0)
+					}
+					r.check(ground == "", "C20.refusal-grounds", fn, "refusal of a call", pn.Pos(), "decided by the argument count alone", "the builder also refuses a call because of "+ground+": a call with a count within the bounds and assignable arguments is not invoked")
+				}
+			}
+		}
+	}
+	r.floor("C20.refusal-grounds", "refusals in the argument builders", nrg, 2)
 	// the two builders box argument k into slot k (+1 when the context occupies slot 0), in both branches
 	for _, pr := range []struct {
 		fn  *ssa.Function
@@ -6485,4 +6545,59 @@ func accessorTotalRule(w *World, r *Report, e *Engine, rule string) {
 		r.check(okKind, rule, gs, "error answer of the sequence accessor", ret.Pos(), "only for an argument that is neither a list nor a vector", "the accessor can refuse a list or a vector here: callers that have established the kind drop its error and go on with no elements - two long sequences compare equal, a refused sequence counts as empty")
 	}
 	r.floor(rule, "error answers of the sequence accessor", n, 1)
+}
+
+// processStateRule: no function of the module changes the working directory of the process.
+func processStateRule(w *World, r *Report, rule string) {
+	r.rule(rule, "no function of the module calls os.Chdir: relative file names in a program (slurp, load-file) name the same files whichever way the program is delivered")
+	n := 0
+	for _, fn := range w.Funcs {
+		if isTestFunc(w, fn) || !inModule(fn) {
+			continue
+		}
+		for _, b := range fn.Blocks {
+			for _, in := range b.Instrs {
+				ci, ok := in.(ssa.CallInstruction)
+				if !ok {
+					continue
+				}
+				if sc := ci.Common().StaticCallee(); sc != nil && fnPkgPath(sc) == "os" && (sc.Name() == "Chdir") {
+					n++
+					r.bad(rule, fn, "change of the working directory", in.Pos(), w.fnName(fn)+" changes the working directory of the process: a program delivered this way resolves its relative file names elsewhere than the same program read as text, fed to REPL or loaded with load-file")
+				}
+			}
+		}
+	}
+	r.add(rule, nil, "calls of os.Chdir in the module", token.NoPos, "ok", fmt.Sprintf("%d found", n))
+}
+
+// getPositionOwnRule: the position of a form is the form's own cursor. A form without one has no position:
+// answering with the position of a part of it (its head) places every error raised for the form on the part's
+// line, which need not be where the fault is - and errors that rightly had no position now have a wrong one.
+func getPositionOwnRule(w *World, r *Report, rule string) {
+	r.rule(rule, "lisperror.GetPosition answers with the cursor of the value it was handed (or nil): it does not call itself on a part of that value, so a form without a position of its own is not given the position of its head")
+	gp := w.Fn("lisperror", "GetPosition")
+	if gp == nil {
+		r.undecided(rule, nil, "lisperror.GetPosition", token.NoPos, "function no longer resolves")
+		return
+	}
+	n := 0
+	for _, fn := range w.withPkgHelpers(gp) {
+		if fn == nil {
+			continue
+		}
+		n++
+		for _, c := range staticCallsTo(fn, gp) {
+			// (a value that carries another value whole - an error around a form - may be unwrapped; a part of a list may not)
+			arg := unboxed(c.Call.Args[0])
+			part := false
+			if ld, ok := arg.(*ssa.UnOp); ok {
+				if _, isElem := ld.X.(*ssa.IndexAddr); isElem {
+					part = true
+				}
+			}
+			r.check(!part, rule, fn, "position taken from a part of the form", c.Pos(), "the form's own cursor", "the position of an element of the form ("+describeVal(nil, c.Call.Args[0], 0)+") is answered for the form: a form assembled by a macro is located at its head symbol, and an error raised for it is reported on a line that need not hold the fault")
+		}
+	}
+	r.add(rule, gp, "functions of GetPosition", token.NoPos, "ok", fmt.Sprintf("%d examined", n))
 }
